@@ -9,6 +9,15 @@ TB = ("trusted base: rustc's MIR construction and Instance resolution for the re
       "mir-opt-level 0, overflow checks on), the fact extractor /verif/driver, std/rpds/arcstr behaving as documented")
 
 CLAIMS = {
+ 'C02': dict(
+   technique="MIR pairing analysis: who-may-write + inverse-arm matching + payload provenance (custom rustc_private extractor, Python rules)",
+   text=("Static, all-paths: decides the mechanism 'every machine-state mutation logs its inverse'. For every function the VM can reach at "
+         "run time (call graph + decoded word registry) every write to ip/data_stack/return_stack(+locals)/loops/special/heap is paired, under "
+         "is_recording(), with add_reverse_step(V) whose reverse_changes arm performs the inverse kind of write on the same field and whose "
+         "payload provably is the removed/overwritten value (R1/R2); every arm undoes with direct writes, no unbalanced or dead log variants (R3); "
+         "every Ok path of fetch_and_run has exactly one ip write and nothing after it (R4). Does not decide value-level equality of restored "
+         "states for all programs, nor replay determinism."),
+   ref='§3 C02'),
  'C14': dict(
    technique="MIR who-may-write + dominator analysis (custom rustc_private fact extractor, Python rule library)",
    text=("Static, all-paths: decides the step case of the invariant 'stack <= S, heap <= H, executed instructions <= N'. "
